@@ -388,6 +388,15 @@ class kFlowDecomp(pathmodel.AbstractPathModelDAG):
         start_time = time.perf_counter()
         (paths, weights) = self.G.decompose_using_max_bottleneck(self.flow_attr)
 
+        # The weights are reported in the requested weight type, as in the MILP route
+        if self.weight_type == int:
+            if any(weight != round(weight) for weight in weights):
+                # No integer decomposition comes out of the greedy algorithm: the MILP decides
+                return False
+            weights = [round(weight) for weight in weights]
+        else:
+            weights = [float(weight) for weight in weights]
+
         # Check if the greedy decomposition satisfies the subpath constraints
         if self.subpath_constraints:
             for subpath in self.subpath_constraints:
@@ -410,7 +419,7 @@ class kFlowDecomp(pathmodel.AbstractPathModelDAG):
             # If paths contains strictly less than self.k paths, 
             # then we add arbitrary paths (i.e. we repeat the first path) with 0 weights to reach self.k paths.
             paths += [paths[0] for _ in range(self.k - len(paths))]
-            weights += [0 for _ in range(self.k - len(weights))]
+            weights += [self.weight_type(0) for _ in range(self.k - len(weights))]
             # self._solution = {
             #     "paths": paths,
             #     "weights": weights,
